@@ -130,6 +130,9 @@ def check_rules(rules, res, rng, label):
                      {"why": "a rule outside the documented grammar was parsed" if g is None else
                       "a well-formed rule was rejected or parsed to another meaning than what is written",
                       "impl": i, "grammar": g})
+        if ok and not all(isinstance(t, str) for t in rule):
+            # a token that is not a string, yet the rule was parsed (reported just above): nothing further to ask of it
+            continue
         if ok:
             res.count("type_" + i["ok"]["rule_type"])
             packs.append((rule, i["ok"]))
